@@ -54,6 +54,7 @@ import (
 	gsmsg "github.com/ipfs/go-graphsync/message"
 	"github.com/ipfs/go-graphsync/messagequeue"
 	"github.com/ipfs/go-graphsync/notifications"
+	"github.com/ipfs/go-graphsync/peerstate"
 	"github.com/ipfs/go-graphsync/persistenceoptions"
 	"github.com/ipfs/go-graphsync/requestmanager"
 	"github.com/ipfs/go-graphsync/requestmanager/executor"
@@ -530,6 +531,7 @@ type caseRun struct {
 	lastTermStatus     int
 	hookErrInjected    bool
 	pauseSeen          bool // the script issued a pause (API or block hook)
+	mgrStuck           bool // the manager goroutine did not answer a PeerState query at a quiescent point
 	quiesceFailed      bool
 }
 
@@ -681,7 +683,23 @@ func (cr *caseRun) peerStateStr() (string, string) {
 	if cr.w.isParked("rhook") {
 		return "ps:-", "-"
 	}
-	ps := cr.rm.PeerState(peerID(0))
+	if cr.mgrStuck {
+		return "ps:stuck", "stuck"
+	}
+	// PeerState goes through the manager's mailbox: ask asynchronously and wait for quiescence, so that a
+	// manager goroutine that is blocked for good (a deadlock of the real code) does not hang the harness
+	pch := make(chan peerstate.PeerState, 1)
+	go func() { pch <- cr.rm.PeerState(peerID(0)) }()
+	if !quiesce() {
+		cr.quiesceFailed = true
+	}
+	var ps peerstate.PeerState
+	select {
+	case ps = <-pch:
+	default:
+		cr.mgrStuck = true
+		return "ps:stuck", "stuck"
+	}
 	st := "none"
 	if s, ok := ps.RequestStates[cr.reqID]; ok {
 		st = s.String()
@@ -702,10 +720,24 @@ func (cr *caseRun) peerStateStr() (string, string) {
 
 func (cr *caseRun) live() (known bool, live bool) {
 	_, st := cr.peerStateStr()
-	if st == "-" {
+	if st == "-" || st == "stuck" {
 		return false, false
 	}
 	return true, st != "none"
+}
+
+// covPoint records at which life-cycle point (request state as the manager reports it / gate the executor
+// is parked at / manager held) a stimulus is injected.
+func (cr *caseRun) covPoint(what string) {
+	_, st := cr.peerStateStr()
+	g := cr.w.parkedGates()
+	if st == "-" {
+		st = "mgr-held"
+	}
+	if g == "" {
+		g = "free"
+	}
+	cr.out.Cov("point." + what + "@" + st + "/" + g)
 }
 
 func atoi(s string) int { n, _ := strconv.Atoi(s); return n }
@@ -862,6 +894,9 @@ func runCase(c reg.Case, out *reg.Out) {
 				}
 			}
 			out.Cov(fmt.Sprintf("resp.peer%d.%s.%s", pr, statusClass(status), hk))
+			if pr == 0 && (isFailure(status) || isSuccessC(status)) {
+				cr.covPoint("terminal-" + statusClass(status))
+			}
 			skip := 0
 			if op[0] == "respx" {
 				skip = 1 // the stream leaves out one item
@@ -874,6 +909,7 @@ func runCase(c reg.Case, out *reg.Out) {
 				continue
 			}
 			cr.cancelIssued = true
+			cr.covPoint("cancelctx")
 			if !cr.ctxCancelled {
 				cr.ctxCancelled = true
 				w.mu.Lock()
@@ -891,6 +927,7 @@ func runCase(c reg.Case, out *reg.Out) {
 				continue
 			}
 			cr.cancelIssued = true
+			cr.covPoint("cancelapi")
 			if cr.apiCancels == 0 {
 				cr.apiCancelNoCause = !cr.terminalCause
 			}
@@ -1073,9 +1110,11 @@ func (cr *caseRun) end() {
 			break
 		}
 		_, st := cr.peerStateStr()
+		if st == "stuck" {
+			break
+		}
 		if st == "paused" && !cr.cancelIssued {
-			err := cr.rm.UnpauseRequest(context.Background(), cr.reqID)
-			cr.apiResult("unpause", err)
+			go func() { cr.apiResult("unpause", cr.rm.UnpauseRequest(context.Background(), cr.reqID)) }()
 			cr.out.Cov("end.unpause")
 			continue
 		}
@@ -1142,6 +1181,9 @@ func (cr *caseRun) oracle(pc, ec bool) {
 	}
 	if cr.quiesceFailed {
 		out.Fail("hang", "the process did not become quiescent within %v", quiesceLimit)
+	}
+	if cr.mgrStuck {
+		out.Fail("hang", "the manager goroutine is blocked for good (PeerState unanswered while every goroutine is blocked)")
 	}
 	// a CancelRequest found the request live unless it answered RequestNotFound (no answer = still waiting)
 	apiCancelLive, apiFirstLive := false, false
